@@ -1,6 +1,7 @@
 package main
 
 import (
+	"context"
 	"fmt"
 	"io"
 	"log/slog"
@@ -131,6 +132,7 @@ func runC17(e *emitter, tier string, seed uint64) {
 	if e.onlyCorpus {
 		return
 	}
+	c17Sessions(e, seed)
 	maxDoc := 5
 	if tier == "thorough" {
 		maxDoc = 7
@@ -245,5 +247,84 @@ func runC17(e *emitter, tier string, seed uint64) {
 			}
 		}
 		c17Hist(e, doc, hist)
+	}
+}
+
+
+// Editor sessions against the language server's notification handlers (Server.DidOpen / DidChange / DidClose) with a stub
+// in place of gopls: open, edit (versions count up), close, open AGAIN (versions restart at 1), edit. After every sub-session
+// the server's copy (Server.TemplSource) is emitted as a history case.
+type c17Target struct{ lsp.Server }
+
+func (t *c17Target) DidOpen(context.Context, *lsp.DidOpenTextDocumentParams) error     { return nil }
+func (t *c17Target) DidChange(context.Context, *lsp.DidChangeTextDocumentParams) error { return nil }
+func (t *c17Target) DidClose(context.Context, *lsp.DidCloseTextDocumentParams) error   { return nil }
+
+type c17Client struct{ lsp.Client }
+
+func (c *c17Client) PublishDiagnostics(context.Context, *lsp.PublishDiagnosticsParams) error { return nil }
+
+func c17Sessions(e *emitter, seed uint64) {
+	r := &rng{s: seed ^ 0x5e55}
+	const uri = lsp.DocumentURI("file:///work/hello.templ")
+	base := "package main\n\ntempl hello(name string) {\n\t<div>{ name }</div>\n}\n"
+	texts := []string{"X", "ab\ncd", "", "\n", "Hello, ", "<span>", "// c\n"}
+	for s := 0; s < 40; s++ {
+		srv := proxy.NewServer(quietLog, &c17Target{}, proxy.NewSourceMapCache(), proxy.NewDiagnosticCache(), true)
+		ctx := lsp.WithClient(context.Background(), &c17Client{})
+		for sub := 0; sub < 1+r.intn(3); sub++ {
+			doc0 := base
+			if r.chance(1, 3) {
+				doc0 = "package p\n\ntempl t() {\n\t<p>x</p>\n}\n"
+			}
+			failed := ""
+			if p, msg := safely(func() {
+				if err := srv.DidOpen(ctx, &lsp.DidOpenTextDocumentParams{TextDocument: lsp.TextDocumentItem{URI: uri, LanguageID: "templ", Version: 1, Text: doc0}}); err != nil {
+					failed = "DidOpen: " + err.Error()
+				}
+			}); p {
+				failed = fmt.Sprint("DidOpen panicked: ", msg)
+			}
+			var cs []c17Change
+			cur := doc0
+			version := int32(1)
+			for k := 1 + r.intn(5); k > 0 && failed == ""; k-- {
+				lines := strings.Split(cur, "\n")
+				l0 := r.intn(len(lines))
+				c0 := r.intn(len(lines[l0]) + 1)
+				l1 := l0 + r.intn(len(lines)-l0)
+				c1 := r.intn(len(lines[l1]) + 1)
+				if l1 == l0 && c1 < c0 {
+					c1 = c0
+				}
+				var rg *[4]uint32
+				if !r.chance(1, 6) {
+					rg = &[4]uint32{uint32(l0), uint32(c0), uint32(l1), uint32(c1)}
+				}
+				text := r.pick(texts)
+				cs = append(cs, c17Change{rg, text})
+				cur = c17Apply(cur, rg, text) // only to keep later ranges inside the document
+				version++
+				if p, msg := safely(func() {
+					if err := srv.DidChange(ctx, &lsp.DidChangeTextDocumentParams{
+						TextDocument:   lsp.VersionedTextDocumentIdentifier{TextDocumentIdentifier: lsp.TextDocumentIdentifier{URI: uri}, Version: version},
+						ContentChanges: []lsp.TextDocumentContentChangeEvent{{Range: lspRange(rg), Text: text}},
+					}); err != nil {
+						failed = "DidChange: " + err.Error()
+					}
+				}); p {
+					failed = fmt.Sprint("DidChange panicked: ", msg)
+				}
+			}
+			out := "PANIC"
+			if failed == "" {
+				if d, ok := srv.TemplSource.Get(string(uri)); ok {
+					out = hx(d.String())
+				}
+			}
+			enc := c17EncChanges(cs)
+			e.emit(fmt.Sprintf("session %d %d %s %s", s, sub, hx(doc0), enc), "hist", hx(doc0), enc, out)
+			_ = srv.DidClose(ctx, &lsp.DidCloseTextDocumentParams{TextDocument: lsp.TextDocumentIdentifier{URI: uri}})
+		}
 	}
 }
